@@ -51,7 +51,7 @@ def gen_cases(ctx):
 
 def run_cases(ctx, cases):
     binary = vlib.build("buffer_replay", "buffer_replay.cpp")
-    res = vlib.replay_cases(binary, cases, timeout=1500)
+    res = vlib.replay_cases(binary, cases, timeout=1500, env={"VH_CASE_TIMEOUT": "30"})
     byid = {c["id"]: c for c in cases}
     if len(res) != len(cases):
         raise vlib.ModelFailure("replay returned %d results for %d cases" % (len(res), len(cases)))
